@@ -114,6 +114,36 @@ fn cmp_pair() {
     core::mem::forget(b);
 }
 
+// two handles that point at the SAME bytes with different lengths (a clone truncated while
+// shared; two static strs starting at the same address): equal pointers must not mean equal
+// @harness name=cmp_same_buffer props=C17 class=B bound="two handles on one heap block of capacity 18 / one static object <= 20, texts <= 18 bytes" unwind=22 tier=quick fn=PartialEq,Ord covers=cmp.same_buffer_different_len timeout=1500
+#[kani::proof]
+fn cmp_same_buffer() {
+    arm_covers();
+    let heap: bool = kani::any();
+    let (ra, ag) = if heap { any_heap_fixed(TN) } else { any_static(TN + 2) };
+    kani::assume(ag.len <= TN);
+    let len2: usize = kani::any();
+    kani::assume(len2 <= TN && len2 <= (if heap { ag.cap } else { ag.obj }));
+    let rb: Repr = unsafe {
+        core::mem::transmute(RawWords(
+            if heap { ag.base.add(HDR) as *const u8 } else { ag.base as *const u8 },
+            len2 | ((if heap { 0xD0usize } else { 0xD1usize }) << 56),
+        ))
+    };
+    let bg = view(&rb);
+    let a = LeanString(ra);
+    let b = LeanString(rb);
+    let ta = copy_text(&a, &ag);
+    let tb = copy_text(&b, &bg);
+    let want = spec_cmp(&ta, ag.len, &tb, bg.len);
+    cov!(ag.len != bg.len && ag.len > 0 && bg.len > 0, "cmp.same_buffer_different_len");
+    obl!((a == b) == (want == Ordering::Equal), "cmp.same_buffer_eq_iff_same_text", "C17");
+    obl!(a.cmp(&b) == want, "cmp.same_buffer_ord_is_bytewise_lexicographic", "C17");
+    core::mem::forget(a);
+    core::mem::forget(b);
+}
+
 // @harness name=hash_one props=C17 class=B bound="one handle of any storage kind, text <= 18 bytes" unwind=22 tier=quick fn=Hash covers=hash.post_reachable
 #[kani::proof]
 fn hash_one() {
